@@ -28,12 +28,17 @@ def gen(rng, tier):
         f0 = lambda: rand_formula(rng, n, k, maxd=(3 if wide or rng.random() < 0.3 else 1),  # noqa: E731
                                   maxc=(3 if wide or rng.random() < 0.3 else 1))
         fs = [f0() for _ in range(rng.randint(1, 4))]
+        default_start = rng.random() < 0.2
+        if default_start:
+            # the history starts from the DEFAULT provenance (one unit per row, built by Provenance(units=n), flagged "simple")
+            k = 2
+            fs = [[[(i, 1)]] for i in range(n)]
         ln = len(fs)
         ops = []
         for _ in range(rng.randint(1, 12)):
             kinds = ["insert", "insert", "append", "extend", "iadd"]
             if ln > 0:
-                kinds += ["set", "set", "del", "pop", "popat", "delslice", "reverse", "probe", "setmany"]
+                kinds += ["set", "set", "del", "pop", "popat", "delslice", "reverse", "probe", "setmany", "delmask"]
             kd = rng.choice(kinds)
             if kd == "set":
                 ops.append(["set", rng.randrange(-ln, ln), f0()])
@@ -72,9 +77,14 @@ def gen(rng, tier):
                     sel = ["list", [i - ln if rng.random() < 0.3 else i for i in pos]]
                 else:
                     pos = [i for i in range(ln) if rng.random() < 0.5]
-                    sel = ["mask", [i in pos for i in range(ln)]]
+                    # a boolean mask, as an ndarray or as a plain Python list of bools
+                    sel = [rng.choice(["mask", "masklist"]), [i in pos for i in range(ln)]]
                 if pos:
                     ops.append(["setmany", sel, pos, [f0() for _ in pos]])
+            elif kd == "delmask":
+                m = [rng.random() < 0.4 for _ in range(ln)]
+                ops.append(["delmask", rng.choice(["mask", "masklist", "poslist"]), m])
+                ln -= sum(m)
             elif kd == "delslice":
                 s = [rng.choice([None, 0, 1, -1, -2]), rng.choice([None, 1, 2, -1, ln]), rng.choice([None, 1, 2, -1])]
                 ops.append(["delslice", s])
@@ -82,7 +92,8 @@ def gen(rng, tier):
             else:
                 ops.append(["reverse"])
         xs = [[rng.randrange(k) for _ in range(n)] for _ in range(3)]
-        cases.append({"n": n, "k": k, "fs": fs, "ops": ops, "xs": xs, "cand_rev": rng.random() < 0.3})
+        cases.append({"n": n, "k": k, "fs": fs, "ops": ops, "xs": xs, "cand_rev": (not default_start) and rng.random() < 0.3,
+                      "default_start": default_start})
     return cases
 
 
@@ -117,7 +128,7 @@ def run_impl(c):
             return [[lits_of(x)[0][0] for x in e._elements]]
         return [lits_of(x)[0] for x in e._elements]
 
-    p = Provenance([mk(f) for f in c["fs"]])
+    p = Provenance(units=units) if c.get("default_start") else Provenance([mk(f) for f in c["fs"]])
     ref = [mk(f) for f in c["fs"]]
     state = {"ok": True}
 
@@ -133,6 +144,9 @@ def run_impl(c):
             if np.asarray(p.query({i: cand[x[i]] for i in range(n) if i % 2})).tolist() != \
                     np.asarray(p.query(np.array(xpart, dtype=int))).tolist():
                 state["ok"] = False
+        # the "simple" flag is a promise used by the neighbor fast path: row i is exactly `unit i == candidate 1`, for every unit
+        if p.is_simple and view != [[[(i, 1)]] for i in range(n)]:
+            state["ok"] = False
         # the same observations on the reference list
         if len(p) != len(ref):
             state["ok"] = False
@@ -182,10 +196,26 @@ def run_impl(c):
                 p[slice(*arg)] = es
             elif how == "list":
                 p[list(arg)] = es
+            elif how == "masklist":
+                p[list(arg)] = es
             else:
                 p[np.array(arg, dtype=bool)] = es
             for i, e in zip(op[2], es):
                 ref[i] = e
+        elif kd == "delmask":
+            pos = [i for i, b in enumerate(op[2]) if b]
+            # reading the selection first: as many rows as the mask selects, equal to the list's
+            sel = p[list(op[2])] if op[1] == "masklist" else p[np.array(op[2], dtype=bool)] if op[1] == "mask" else p[pos]
+            if len(sel) != len(pos) or snapshot(sel) != [lits_of(ref[i]) for i in pos]:
+                state["ok"] = False
+            if op[1] == "masklist":
+                del p[list(op[2])]
+            elif op[1] == "mask":
+                del p[np.array(op[2], dtype=bool)]
+            else:
+                del p[pos]
+            for i in reversed(pos):
+                del ref[i]
         elif kd == "delslice":
             del p[slice(*op[1])]; del ref[slice(*op[1])]
         elif kd == "reverse":
@@ -228,6 +258,9 @@ def emit(c, o):
             rops.append("(RDelMany %s)" % cf.nats(pos)); ln -= len(pos)
         elif kd == "setmany":
             rops.append("(RSetMany %s %s)" % (cf.nats(op[2]), cf.dnfs(op[3])))
+        elif kd == "delmask":
+            pos = [i for i, b in enumerate(op[2]) if b]
+            rops.append("(RDelMany %s)" % cf.nats(pos)); ln -= len(pos)
         elif kd == "probe":
             rops.append("(RDelMany [])")      # editing a slice is a no-op on the container itself
         else:
@@ -251,7 +284,7 @@ def distribution(cases, outs):
     ops = Counter(op[0] for c in cases for op in c["ops"])
     hist = Counter(len(c["ops"]) for c in cases)
     neg = sum(1 for c in cases for op in c["ops"] if op[0] in ("set", "insert", "del", "popat") and op[1] < 0)
-    return {"op_kinds": dict(ops), "history_lengths": dict(sorted(hist.items())), "negative_indices": neg,
+    return {"op_kinds": dict(ops), "history_lengths": dict(sorted(hist.items())), "negative_indices": neg, "histories_starting_from_the_default_provenance": sum(1 for c in cases if c.get("default_start")),
             "exceptions": dict(Counter(o["exc"] for o in outs if isinstance(o, dict) and "exc" in o))}
 
 
@@ -294,6 +327,10 @@ def _legal(c):
             ln -= 1
         elif kd == "delslice":
             ln -= len(range(*slice(*op[1]).indices(ln)))
+        elif kd == "delmask":
+            if len(op[2]) != ln:
+                return False
+            ln -= sum(1 for b in op[2] if b)
     return True
 
 
